@@ -55,10 +55,13 @@ def check_buffer_fifo(check, an: Analysis, rule: str):
     for fn, stmt, target, recvs in rules.attribute_stores(an, '_buffer', QUEUE):
         ok = fn.name == '__init__' and isinstance(stmt.value, ast.Call) and \
             ast.unparse(stmt.value.func) in ('deque', 'collections.deque') and \
-            not stmt.value.args
+            not stmt.value.args and all(
+                kw.arg == 'maxlen' and isinstance(kw.value, ast.Constant)
+                and kw.value.value is None for kw in stmt.value.keywords)
         check.instance(rule, '%s:_buffer=' % short(fn.qn), ok,
                        '%s:%d' % (fn.module.relpath, stmt.lineno),
-                       'the buffer is created once, empty, as a deque')
+                       'the buffer is created once, empty, as an unbounded deque (a bounded '
+                       'one silently drops the oldest item when a new one is appended)')
 
 
 def run(check, an: Analysis):
